@@ -18,6 +18,8 @@ import YaegiVerif.Generated.C07
    fvcall ISVARIADIC ELLIPSIS DEFERRED NFIXED (kinds K0 K1 …)   → y=<ok|bad:…> g=ok   (`call` reaching a host function: packing + argument preparation)
    branch USE (results B0 B1 …)    → (USE = reread: left operand of && / ||; branch: if / for / ! / right operand)
                                      y=<ok|bad:stale-branch-result> g=ok   (a host call as a condition executed repeatedly in one frame)
+   define (zero Z0 Z1 …) …         → (one list per declared variable that is referenced afterwards)
+                                     y=<ok|bad:captured-variable-overwritten> g=ok   (`q, r := hp.F(…)` in a loop, earlier variables referenced)
    hostrecv                        → y=<ok|bad:host-receiver-late> g=ok   (method value of a host value: receiver bound at evaluation)
    recvbind                        → y=<ok|bad:late-receiver> g=ok   (method wrapper: receiver read when the wrapper is made)
    ifacerecv                       → y=<ok|bad:receiver-bound-at-conversion|bad:receiver-follows-variable> g=ok
@@ -200,6 +202,12 @@ def handleFvCall (isVariadic ellipsis deferred : Bool) (nFixed : Nat) (kinds : L
   | [] => "y=ok g=ok"
   | b :: _ => s!"y=bad:{b} g=ok"
 
+/-- `q, r := hp.F(…)` executed once per element of `zs` in one frame, a pointer / closure kept after each execution; `zs[k]` says
+    whether the k-th result stored into the variable is the zero value of its type -/
+def handleDefine (zs : List Bool) : String :=
+  let rs := (List.range zs.length).zip zs |>.map fun (i, z) => if z then Rep.int 0 else Rep.int (Int.ofNat (i + 1))
+  if defineReadsY G.defineXCell rs == rs then "y=ok g=ok" else "y=bad:captured-variable-overwritten g=ok"
+
 /-- a host call used as a condition, executed once per element of `rs` in one frame: what the enclosing operation reads after
     each call, with the regenerated fact -/
 def handleBranch (reread : Bool) (rs : List Bool) : String :=
@@ -321,6 +329,14 @@ def handle (args : List Sexp) : String :=
   | [.atom "branch", .atom use, .list (.atom "results" :: rs)] =>
     (match rs.mapM Sexp.bool? with
      | some rs => handleBranch (use == "reread") rs
+     | none => "bad-op")
+  | .atom "define" :: vars =>
+    let one (v : Sexp) : Option String :=
+      match v with
+      | .list (.atom "zero" :: zs) => (zs.mapM Sexp.bool?).map handleDefine
+      | _ => none
+    (match vars.mapM one with
+     | some answers => (answers.find? (fun a => a != "y=ok g=ok")).getD "y=ok g=ok"
      | none => "bad-op")
   | [.atom "hostrecv"] => handleHostRecv
   | [.atom "recvbind"] => handleRecvBind
